@@ -94,3 +94,25 @@ impl UtxoStore for MemStore {
         }
     }
 }
+
+/// Builds a `HashSet<Utxo>` whose iteration order is the `rank`-th permutation of `items` (std gives every
+/// new set a fresh hasher key, so rebuilding eventually yields every order; sets of <= 5 elements).
+pub fn ordered_utxo_set(items: &[Utxo], rank: usize) -> UtxoSet {
+    if items.len() < 2 {
+        return items.iter().cloned().collect();
+    }
+    assert!(items.len() <= 5, "harness: ordered sets are limited to 5 elements");
+    let idx: Vec<usize> = (0..items.len()).collect();
+    let want = nth_permutation(&idx, rank % factorial(items.len()));
+    for _ in 0..200_000 {
+        let set: UtxoSet = items.iter().cloned().collect();
+        let order: Vec<usize> = set
+            .iter()
+            .map(|u| items.iter().position(|x| x.r#ref == u.r#ref).unwrap())
+            .collect();
+        if order == want {
+            return set;
+        }
+    }
+    panic!("harness: could not obtain the planned set order");
+}
